@@ -362,6 +362,10 @@ class Layout:
             elif issubclass(Klass, Component):
                 # init all dimensions to 0, they will be loaded and assigned after load
                 kwargs = dict.fromkeys(Klass.DIMENSION_NAMES, 0)
+                if "modArea" in kwargs:
+                    # not a number but an optional (component, operation) link: a column of
+                    # Nones is not written, so None has to be the starting value
+                    kwargs["modArea"] = None
                 kwargs["material"] = material
                 kwargs["name"] = name
                 kwargs["Tinput"] = temperatures[0]
